@@ -48,11 +48,11 @@ func blank(op string) Ev {
 }
 
 type Case struct {
-	Op   string `json:"op"`
-	D    int    `json:"d"`
-	Q    int    `json:"q"`
-	Dst  int    `json:"dst"`
-	Text []int  `json:"text"`
+	Op   string          `json:"op"`
+	D    int             `json:"d"`
+	Q    int             `json:"q"`
+	Dst  int             `json:"dst"`
+	Text []int           `json:"text"`
 	O    json.RawMessage `json:"o"`
 	St   *struct {
 		Y, Mo, D, H, Mi, S, Q int
